@@ -300,4 +300,315 @@ Section Hub.
       + intros H. rewrite HeUn in H. discriminate.
       + intros _. split; [apply (linked_mid _ _ _ _ Hlp) | change (bnum L < bnum (eblk e)); lia].
   Qed.
+
+  (* ---------------------------------------------------------------- the step that discovers the LIB *)
+
+  Notation first := (c_first cfg).
+
+  Definition DiscOut2 (res : fstate * list event * result) : Prop :=
+    exists a s' evs Fin S' c',
+      res = (s', evs, ROk) /\ Post a s' Fin S' c' /\ cons_fold cons0 evs = Some c' /\ MidFacts cons0 evs a Fin.
+
+  Lemma pii_ok2 b s2 : exists s' eI,
+    process_initial_inclusive cfg b s2 = (s', [mkEv SNew b (bref b) (bref b) (cursor_lib s2) None 0 0; eI], true) /\
+    estep eI = SIrr /\ eblk eI = b /\ db s' = db s2 /\ last_sent s' = Some b /\ last_lib_seen s' = bref b.
+  Proof.
+    unfold process_initial_inclusive. rewrite Hnew, (call_ok cfg Hnofail). cbv beta iota zeta.
+    set (tiny := mkSeg (bid b) (bnum b) (mkEntry b false)).
+    set (s1' := mkFS (db (mkFS (db s2) (last_sent s2) (last_lib_seen s2) (ncalls s2 + 1))) (Some b)
+                     (last_lib_seen (mkFS (db s2) (last_sent s2) (last_lib_seen s2) (ncalls s2 + 1)))
+                     (ncalls (mkFS (db s2) (last_sent s2) (last_lib_seen s2) (ncalls s2 + 1)))).
+    destruct (process_irr_segment_ok cfg Hnofail [tiny] tiny [] (bref b) s1' eq_refl)
+      as (s' & evI & Hrun & Hdb & Hls & Hlls & Hm & Hs).
+    rewrite Hrun. cbv beta iota. rewrite Hirr in Hm. cbn [map sent eb tiny] in Hm.
+    destruct evI as [|eI [|? ?]]; try discriminate. cbn [map] in Hm. injection Hm as HeI.
+    exists s', eI. split; [reflexivity|]. split; [exact (Forall_inv Hs)|]. split; [exact HeI|].
+    split; [rewrite Hdb; reflexivity|]. split; [rewrite Hls; reflexivity|]. rewrite Hlls. reflexivity.
+  Qed.
+
+  Lemma pre_cursor_lib s d2 : last_lib_seen s = ref_empty -> cursor_lib (with_db s d2) = libref d2.
+  Proof. intros H. unfold cursor_lib. cbn [with_db last_lib_seen db]. rewrite H. reflexivity. Qed.
+
+  Lemma own_out2 s b : PreInv U s -> In b U -> find (bid b) (store (db s)) = None ->
+    DiscOut2 (let '(s', evs, ok) := process_initial_inclusive cfg b (with_db s (move_lib (new_db (db s) b) (bref b))) in
+              (s', evs, if ok then ROk else RHandlerErr)).
+  Proof.
+    intros HP Hb Hf. pose proof HP as [Hl He Hnd HU Hun Hls Hlls].
+    set (en := mkEntry b false).
+    assert (Hen : In en (store (db s) ++ [en])) by (apply in_or_app; right; left; reflexivity).
+    pose proof (dbinv_found U U_id U_uniq U_up s b en HP Hb Hf Hen) as Hd2. cbn [eb en] in Hd2.
+    change (R b) with (bref b) in Hd2.
+    set (d2 := move_lib (new_db (db s) b) (bref b)) in *. set (s2 := with_db s d2).
+    destruct (pii_ok2 b s2) as (s' & eI & Hrun & HsI & HbI & Hdb & Hls' & Hlls').
+    rewrite Hrun. cbv beta iota.
+    assert (Hcl2 : cursor_lib s2 = bref b) by (apply pre_cursor_lib; exact Hlls).
+    rewrite Hcl2.
+    set (ev := mkEv SNew b (bref b) (bref b) (bref b) None 0 0).
+    assert (Hdb' : db s' = d2) by (rewrite Hdb; reflexivity).
+    exists b, s', [ev; eI], [b], [b], (mkCons [b] 1 true).
+    split; [reflexivity|]. split; [|split].
+    - constructor.
+      + exact Hb.
+      + constructor; rewrite ?Hdb'.
+        * exact Hd2.
+        * constructor; [|constructor]. split; [exact Hb | apply N.le_refl].
+        * reflexivity.
+        * rewrite Hls'. split; [exact Hb|]. exists []. split; [constructor|]. split; [reflexivity | constructor].
+      + reflexivity.
+      + apply (cursor_lib_self s'). rewrite Hlls', Hdb'. reflexivity.
+      + discriminate.
+      + rewrite Hdb'. exact He.
+    - cbn [cons_fold]. unfold cons_apply at 1. cbn [estep ev cons0 cs_stack cs_nf cs_any eblk].
+      unfold cons_apply. rewrite HsI, HbI. cbn [cs_stack cs_nf cs_any]. unfold nth_from_bottom. cbn [rev app nth_error].
+      rewrite N.eqb_refl. reflexivity.
+    - intros l1 e l2 Hsp Hn.
+      destruct l1 as [|x l1]; cbn [app] in Hsp.
+      + injection Hsp as <- _. exists (mkCons [b] 0 false), [b], [], []. split; [reflexivity|]. split.
+        * apply mkCurAt; cbn [libblk rev app].
+          -- reflexivity.
+          -- exact Hb.
+          -- reflexivity.
+          -- constructor; [|constructor]. split; [exact Hb | apply N.le_refl].
+          -- constructor.
+          -- exact I.
+          -- exact Hb.
+          -- reflexivity.
+          -- intros _. exists []. reflexivity.
+          -- intros H. discriminate.
+        * split; [reflexivity|]. split; [exact I | constructor].
+      + injection Hsp as <- Hsp. destruct l1 as [|y l1]; cbn [app] in Hsp.
+        * injection Hsp as <- _. exfalso. destruct Hn as [Hn|Hn]; rewrite HsI in Hn; discriminate.
+        * injection Hsp as _ Hsp. destruct l1; discriminate.
+  Qed.
+
+  Lemma seg_of_std l : Forall std_sg (map seg_of l).
+  Proof. apply Forall_forall. intros sg H. apply in_map_iff in H as (e & <- & _). reflexivity. Qed.
+
+  Lemma found_out2 s b y A a B' :
+    PreInv U s -> In b U -> find (bid b) (store (db s)) = None ->
+    chain (store (db s) ++ [mkEntry b false]) (bid b) y (A ++ a :: B' ++ [mkEntry b false]) ->
+    bnum (eb a) = blib b ->
+    DiscOut2 (process_tail cfg (with_db s (move_lib (new_db (db s) b) (R (eb a)))) b [] [] None
+                           (map seg_of (B' ++ [mkEntry b false])) (Some (seg_of a))).
+  Proof.
+    intros HP Hb Hf Hc Hbl. pose proof HP as [Hl He Hnd HU Hun Hls Hlls].
+    set (en := mkEntry b false) in *. set (l1 := store (db s) ++ [en]) in *.
+    assert (Hain : In a (A ++ a :: B' ++ [en])) by (apply in_or_app; right; left; reflexivity).
+    assert (Ha : In a l1) by (eapply chain_in; eassumption).
+    pose proof (dbinv_found U U_id U_uniq U_up s b a HP Hb Hf Ha) as Hd2.
+    assert (HaU : In (eb a) U) by (apply (di_inU U _ _ Hd2); exact Ha).
+    set (d2 := move_lib (new_db (db s) b) (R (eb a))) in *. set (s2 := with_db s d2).
+    pose proof (di_wf U (R (eb a)) U_id U_up _ Hd2) as Hwf2.
+    assert (Hc2 : chain (store (db s2)) (bid b) (ri (libref (db s2))) (B' ++ [en])).
+    { apply (chain_suffix l1 y (B' ++ [en]) (bid b) A a Hwf2 Hc). }
+    assert (HI2 : Inv U (R (eb a)) cfg s2 [] []).
+    { constructor.
+      - exact Hd2.
+      - constructor.
+      - reflexivity.
+      - cbn [s2 with_db last_sent]. rewrite Hls. split; [reflexivity|]. split; [reflexivity|]. split.
+        + intros e Hin. cbn [db d2 move_lib new_db store] in Hin.
+          apply in_app_or in Hin as [Hin|[<-|[]]]; [apply Hun; exact Hin | reflexivity].
+        + rewrite Hincl. discriminate. }
+    destruct (trigger_first U (R (eb a)) cfg Hnofail Hnew Hundo U_id U_uniq U_up (R_id U U_id _ HaU) (R_num U U_uniq _ HaU)
+                (R_up U U_up _ HaU) (R_decl U U_uniq D_decl _ HaU)
+                s2 [] [] b B' [] B' [] None (Some (seg_of a)) HI2 Hb Hc2 eq_refl (Forall_nil _) eq_refl)
+      as (s3 & evU & evRN & Hrun & Happ & HI3 & Hk3 & Hls3 & Hlr3 & HmU & HsU & HsRN & Hcl).
+    assert (HfB : filter esent B' = []).
+    { assert (G : forall x, In x B' -> esent x = false).
+      { intros x Hx. assert (Hx1 : In x l1).
+        { eapply chain_in; [exact Hc|]. apply in_or_app. right. right. apply in_or_app. left. exact Hx. }
+        apply in_app_or in Hx1 as [Hx1|[<-|[]]]; [apply Hun; exact Hx1 | reflexivity]. }
+      clear -G. induction B' as [|h t IHt]; cbn [filter]; [reflexivity|].
+      rewrite (G h (or_introl eq_refl)). apply IHt. intros x Hx. apply G. right. exact Hx. }
+    cbn [rev] in Hrun, HmU. rewrite HfB in Hrun. fold en in Hrun. fold s2.
+    apply map_eq_nil in HmU. subst evU. cbn [app] in *.
+    assert (Hne : bid b <> key a).
+    { destruct (chain_snoc_inv _ _ _ _ _ Hc2) as (Hx & _ & _). exact Hx. }
+    assert (Hsto : find (key a) (store (db s3)) <> None).
+    { intros Hn. apply find_none in Hn. apply Hn. rewrite Hk3. apply in_map. exact Ha. }
+    destruct (disc_lib U cfg Hnofail U_id U_uniq U_up D_decl s3 _ b evRN a HaU HI3 Hlr3 Hls3 Hb Hne (eq_sym Hbl) Hsto)
+      as (s' & evI & Hlt & HI' & HsI & HmI & Hlr' & _).
+    rewrite Hirr in HmI. destruct evI as [|eI [|? ?]]; try discriminate. cbn [map] in HmI. injection HmI as HeI.
+    pose proof (Forall_inv HsI) as HsI1. cbn beta in HsI1.
+    (* the fields of the events *)
+    assert (Hcl2 : cursor_lib s2 = R (eb a)) by (apply pre_cursor_lib; exact Hlls).
+    destruct (process_tail_fields cfg Hnofail s2 b [] [] None (map seg_of (B' ++ [en])) (Some (seg_of a))
+                (seg_of_std _) Hcl2) as (s'' & evU' & evN' & evL' & r & Hrun2 & HsU' & HsN' & HsL' & HF & Hc2' & Hx2).
+    rewrite Hrun, Hlt in Hrun2. injection Hrun2 as <- Hevs <-.
+    assert (HA : evRN = evU' ++ evN' /\ [eI] = evL').
+    { rewrite (app_assoc evU' evN' evL') in Hevs. apply (nu_split _ _ _ _ Hevs).
+      - eapply Forall_impl; [|exact HsRN]. cbn beta. unfold nu. auto.
+      - apply Forall_app. split; [eapply Forall_impl; [|exact HsU'] | eapply Forall_impl; [|exact HsN']]; cbn beta; unfold nu; auto.
+      - constructor; [left; exact HsI1 | constructor].
+      - exact HsL'. }
+    destruct HA as [HA _]. rewrite <- HA, Hcl2 in HF.
+    rewrite Hrun, Hlt.
+    (* the consumer *)
+    set (S3 := rev ([] ++ map eb (B' ++ [en]))) in *.
+    destruct (new_phase (ri (R (eb a))) 0 false evRN [] S3 HsRN Happ) as [HS3 HcN].
+    rewrite app_nil_r in HS3.
+    assert (HQall : map eblk evRN = map eb (B' ++ [en])).
+    { apply rev_inj. rewrite <- HS3. reflexivity. }
+    pose proof HI' as [Hd' _ _ Hh'].
+    assert (Hls' : exists hd', last_sent s' = Some hd').
+    { destruct (last_sent s') as [hd'|]; [eauto|]. destruct Hh' as (HS0 & _). exfalso.
+      unfold S3 in HS0. cbn [app] in HS0. rewrite map_app, rev_app_distr in HS0. discriminate. }
+    destruct Hls' as [hd' Els']. rewrite Els' in Hh'. destruct Hh' as (_ & p' & Hcp' & HSp' & _).
+    assert (Hpp : map eb p' = map eb (B' ++ [en])).
+    { apply rev_inj. cbn [app] in HSp'. rewrite <- HSp'. reflexivity. }
+    assert (HlQ : linked (bid (eb a)) (map eb (B' ++ [en]))).
+    { rewrite <- Hpp. exact (inv_linked U (R (eb a)) cfg s' [] S3 _ _ HI' Hcp'). }
+    assert (HQU : Forall (fun x => In x U /\ bnum (eb a) < bnum x) (map eb (B' ++ [en]))).
+    { rewrite <- Hpp. apply Forall_forall. intros x Hxin. apply in_map_iff in Hxin as (e & <- & Hein). split.
+      - apply (di_inU U _ _ Hd'). eapply chain_in; eassumption.
+      - pose proof (di_above U (R (eb a)) U_id U_up _ Hd' _ _ Hcp' e Hein) as H. rewrite Hlr' in H. exact H. }
+    assert (HS3ne : S3 <> []).
+    { unfold S3. cbn [app]. rewrite map_app, rev_app_distr. discriminate. }
+    exists (eb a), s', (evRN ++ [eI]), [], S3, (mkCons S3 0 true).
+    split; [reflexivity|]. split; [|split].
+    - constructor.
+      + exact HaU.
+      + exact HI'.
+      + reflexivity.
+      + destruct (Hc2' eq_refl) as [H|(f & Hff & Hlls')]; [exact H|].
+        injection Hff as <-. apply cursor_lib_self. rewrite Hlls', Hlr'. reflexivity.
+      + exact HS3ne.
+      + apply Hx2. cbn [s2 with_db db d2 move_lib new_db extra]. exact He.
+    - rewrite cfold_app. change cons0 with (mkCons [] 0 false). rewrite HcN.
+      cbn [cons_fold]. unfold cons_apply. rewrite HsI1. cbn [cs_stack cs_nf cs_any]. unfold nth_from_bottom.
+      unfold S3 at 1. rewrite rev_involutive. cbn [app].
+      destruct (map eb (B' ++ [en])) as [|x rest] eqn:EQ.
+      { exfalso. apply map_eq_nil in EQ. destruct B'; discriminate. }
+      cbn [nth_error]. cbn [linked] in HlQ. destruct HlQ as [Hpar _].
+      pose proof (Forall_inv HQU) as [HxU Hxn]. cbn beta in HxU, Hxn. rewrite HeI.
+      destruct (N.eqb_spec (bid x) (bid (eb a))) as [E|E].
+      + exfalso. assert (x = eb a) by (apply U_uniq; assumption). subst x. lia.
+      + cbn [negb andb Nat.eqb]. rewrite Hpar, N.eqb_refl. reflexivity.
+    - intros l0 e l2 Hsp Hn.
+      assert (Hq : Forall quiet [eI]) by (constructor; [left; exact HsI1 | constructor]).
+      destruct (nu_in_front _ _ _ _ _ Hsp Hq Hn) as (l2' & HevRN & _).
+      assert (HeF : elib e = R (eb a) /\ ecblk e = bref (eblk e)).
+      { rewrite Forall_forall in HF. apply HF. rewrite HevRN. apply in_or_app. right. left. reflexivity. }
+      destruct HeF as [Helib Hecb].
+      rewrite HevRN in Happ. change (l0 ++ e :: l2') with (l0 ++ [e] ++ l2') in Happ. rewrite app_assoc in Happ.
+      destruct (apply_all_split _ (l0 ++ [e]) l2' _ _ Happ) as (Sk & Happk & _).
+      assert (HsNk : Forall (fun x => estep x = SNew) (l0 ++ [e])).
+      { rewrite HevRN in HsRN. apply Forall_app in HsRN as [G1 G2]. apply Forall_app. split; [exact G1|].
+        constructor; [exact (Forall_inv G2) | constructor]. }
+      destruct (new_phase (ri (R (eb a))) 0 false (l0 ++ [e]) [] Sk HsNk Happk) as [HSk Hck].
+      rewrite app_nil_r in HSk.
+      set (Q := map eblk l0 ++ [eblk e]).
+      assert (HQpre : map eb (B' ++ [en]) = Q ++ map eblk l2').
+      { rewrite <- HQall, HevRN. unfold Q. rewrite map_app. cbn [map]. rewrite <- app_assoc. reflexivity. }
+      rewrite HQpre in HlQ, HQU. apply Forall_app in HQU as [HQkU _].
+      exists (mkCons Sk 0 false), [], Q, [].
+      split; [exact Hck|]. split; [|split; [reflexivity|split; [exact I | constructor]]].
+      cbn [libblk rev].
+      apply mkCurAt.
+      + cbn [cs_stack app]. rewrite HSk, map_app. reflexivity.
+      + exact HaU.
+      + exact Helib.
+      + constructor.
+      + exact HQkU.
+      + eapply linked_prefix. exact HlQ.
+      + rewrite Forall_forall in HQkU. apply HQkU. unfold Q. apply in_or_app. right. left. reflexivity.
+      + exact Hecb.
+      + intros _. exists (map eblk l0). reflexivity.
+      + intros H. rewrite Forall_forall in HsNk. rewrite (HsNk e) in H; [discriminate|].
+        apply in_or_app. right. left. reflexivity.
+  Qed.
+
+  (* ---------------------------------------------------------------- one ProcessBlock call before the discovery
+     (Proofs/Fk/MovingLibDisc.pre_step with the richer description of the discovering step) *)
+
+  Lemma pre_step2 s b : PreInv U s -> In b U ->
+    PreQuiet U s b (fk_step cfg s b) \/ DiscOut2 (fk_step cfg s b).
+  Proof.
+    intros HP Hb. pose proof HP as [Hl He Hnd HU Hun Hls Hlls].
+    destruct (find (bid b) (store (db s))) as [e|] eqn:Hf.
+    { left. rewrite (pre_step_old U cfg Hincl U_id U_uniq U_up s b e HP Hb Hf). exists s. split; [reflexivity|]. split; [exact HP|].
+      split; [auto|]. split; [auto|]. apply find_is_some_in. eauto. }
+    assert (Hk : ~ In (bid b) (keys (store (db s)))) by (apply find_none; exact Hf).
+    rewrite (fk_step_pre U cfg Hhold Hincl U_id U_uniq U_up D_decl s b HP Hb Hf). cbv zeta.
+    set (en := mkEntry b false). set (d1 := new_db (db s) b).
+    pose proof (pre_add U s b HP Hb Hf) as HP1. pose proof HP1 as [Hl1 He1 Hnd1 HU1 Hun1 _ _].
+    cbn [with_db db] in Hl1, He1, Hnd1, HU1, Hun1. fold d1 in Hl1, He1, Hnd1, HU1, Hun1.
+    pose proof (wf_of_U U U_id U_up _ Hnd1 HU1) as Hwf1.
+    assert (Hfb : find (bid b) (store d1) = Some en).
+    { unfold d1. cbn [new_db store]. apply (find_snoc_new (store (db s)) en). exact Hk. }
+    destruct (max_chain (store d1) Hwf1 (fuel_of d1) (bid b) (enough_fuel_of d1 (bid b))) as (y & p & Hc & Hy).
+    destruct p as [|top p' _] using rev_ind.
+    { apply chain_nil_inv in Hc. rewrite <- Hc, Hfb in Hy. discriminate. }
+    destruct (chain_top _ _ _ _ _ Hc) as [Hft _]. rewrite Hfb in Hft. injection Hft as <-.
+    assert (Hquiet : has_lib d1 = false -> PreQuiet U s b (with_db s d1, [], ROk)).
+    { intros _. exists (with_db s d1). split; [reflexivity|]. split; [exact HP1|]. split; [intros H; contradiction|].
+      cbn [with_db db d1 new_db store]. rewrite keys_snoc. split.
+      - intros k Hin. apply in_or_app. left. exact Hin.
+      - apply in_or_app. right. left. reflexivity. }
+    assert (Hhl1 : has_lib d1 = false) by (unfold has_lib; rewrite Hl1; reflexivity).
+    assert (Hown : forall d2, d2 = move_lib d1 (bref b) ->
+              DiscOut2
+              (if has_lib d2 then
+                 if rn (libref d2) =? bnum b then
+                   let '(s', evs, ok) := process_initial_inclusive cfg b (with_db s d2) in (s', evs, if ok then ROk else RHandlerErr)
+                 else match reversible_segment d2 first (bref b) with
+                      | None => (with_db s d2, [], RFuel)
+                      | Some (longest, _) => if (match longest with [] => true | _ => false end) then (with_db s d2, [], ROk)
+                                              else process_tail cfg (with_db s d2) b [] [] None longest (block_for_id d2 (ri (libref d2)))
+                      end
+               else (with_db s d2, [], ROk))).
+    { intros d2 ->. unfold has_lib, move_lib, ref_eqb, ref_empty, bref. cbn [libref ri rn].
+      destruct (N.eqb_spec (bid b) 0) as [E|E]; [exfalso; apply (proj1 (U_id b Hb)); exact E|]. cbn [andb negb].
+      rewrite N.eqb_refl. apply own_out2; assumption. }
+    unfold set_lib. change (rn (bref b)) with (bnum b).
+    destruct (bnum b =? first).
+    { right. cbv beta iota. apply (Hown _ eq_refl). }
+    destruct (decl_on_store U U_uniq U_up (store d1) p' (bid b) y en HU1 Hc Hb (D_decl b Hb)) as [(A & a & B & Heq & Hna)|Hgt].
+    - (* the declared height is the height of a stored ancestor-or-self *)
+      rewrite Heq in Hc. cbn [eb en] in Hna.
+      pose proof (bic_find d1 (bid b) y A a B en Hwf1 Hc Hfb) as Hbic. cbn [eb en] in Hbic. rewrite Hna in Hbic.
+      change (mkR (bid b) (bnum b)) with (bref b) in Hbic. rewrite Hbic. cbn [ri].
+      assert (Hain : In a (A ++ a :: B)) by (apply in_or_app; right; left; reflexivity).
+      assert (Ha : In a (store d1)) by (eapply chain_in; eassumption).
+      destruct (N.eqb_spec (key a) 0) as [E0|_]; [exfalso; apply (proj1 (ws_id _ Hwf1 a Ha)); exact E0|].
+      right. cbv beta iota.
+      destruct B as [|t B' _] using rev_ind.
+      + (* the block is its own LIB *)
+        destruct (chain_top _ _ _ _ _ Hc) as [Hfa _]. rewrite Hfb in Hfa. injection Hfa as <-.
+        change (mkR (key en) (blib b)) with (mkR (bid b) (blib b)). rewrite <- Hna.
+        change (mkR (bid b) (bnum b)) with (bref b). apply (Hown _ eq_refl).
+      + assert (Ht : t = en).
+        { replace (A ++ a :: B' ++ [t]) with ((A ++ a :: B') ++ [t]) in Hc by (rewrite <- app_assoc; reflexivity).
+          destruct (chain_top _ _ _ _ _ Hc) as [Hft _]. congruence. }
+        subst t.
+        pose proof (dbinv_found U U_id U_uniq U_up s b a HP Hb Hf Ha) as Hd2. rewrite <- Hna.
+        change (mkR (key a) (bnum (eb a))) with (R (eb a)).
+        set (d2 := move_lib d1 (R (eb a))) in *.
+        rewrite (di_has_lib U (R (eb a)) d2 Hd2). cbn [d2 move_lib libref R rn].
+        destruct (chain_split_order _ _ _ _ _ _ Hwf1 Hc) as [Habove _].
+        assert (Hlt : bnum (eb a) < bnum b).
+        { apply (Habove en). apply in_or_app. right. left. reflexivity. }
+        destruct (N.eqb_spec (bnum (eb a)) (bnum b)) as [E|_]; [lia|].
+        fold d2.
+        assert (Hc2 : chain (store d2) (bid b) (ri (libref d2)) (B' ++ [en])).
+        { apply (chain_suffix (store d1) y (B' ++ [en]) (bid b) A a Hwf1 Hc). }
+        pose proof (rs_chain_lib d2 first (di_wf U _ U_id U_up d2 Hd2) (di_lid U _ d2 Hd2) (di_num U _ d2 Hd2) (di_up U _ d2 Hd2)
+                      (bid b) (B' ++ [en]) en Hc2 Hfb) as Hrs.
+        cbn [eb en] in Hrs. change (mkR (bid b) (bnum b)) with (bref b) in Hrs. rewrite Hrs by (destruct B'; discriminate).
+        destruct (map seg_of (B' ++ [en])) as [|sg0 sgs] eqn:Emap.
+        { apply map_eq_nil in Emap. destruct B'; discriminate. }
+        rewrite <- Emap.
+        assert (Hbf : block_for_id d2 (ri (libref d2)) = Some (seg_of a)).
+        { unfold block_for_id. cbn [d2 move_lib libref R ri store]. change (bid (eb a)) with (key a).
+          rewrite (find_in_nodup _ _ Hnd1 Ha). reflexivity. }
+        change (ri (R (eb a))) with (ri (libref d2)). rewrite Hbf. apply (found_out2 s b y A a B' HP Hb Hf); [exact Hc | exact Hna].
+    - (* no stored ancestor at the declared height: hold *)
+      left. unfold block_in_chain. change (rn (bref b)) with (bnum b). change (ri (bref b)) with (bid b).
+      assert (Hgb : blib b < bnum b).
+      { apply (Hgt en). apply in_or_app. right. left. reflexivity. }
+      destruct (N.eqb_spec (bnum b) (blib b)) as [E|_]; [lia|].
+      rewrite (bic_all_gt d1 (blib b) Hwf1 He1 (bid b) y (p' ++ [en]) Hc Hy); [|destruct p'; discriminate | exact Hgt | apply enough_fuel_of].
+      cbn [ri ref_empty]. rewrite N.eqb_refl. cbv beta iota. rewrite Hhl1. apply Hquiet. exact Hhl1.
+  Qed.
 End Hub.
